@@ -5,8 +5,16 @@ QFile == {"F1", "F2"}
 QData == [f \in QFile |-> CASE f = "F1" -> <<"X", "Y">> [] f = "F2" -> <<"X", "Y", "Z">>]
 QOther == [f \in QFile |-> CASE f = "F1" -> {"r1", "ms"} [] f = "F2" -> {"r2", "ms"}]
 QCaps == {1, 4}
+QSplit == [f \in QFile |-> Len(QData[f])]
 \* second quick configuration: a file with a repeated chunk that another file also holds
 RFile == {"F2", "F4"}
 RData == [f \in RFile |-> CASE f = "F2" -> <<"Y", "Z">> [] f = "F4" -> <<"Z", "Z">>]
 ROther == [f \in RFile |-> CASE f = "F2" -> {"r2", "ms"} [] f = "F4" -> {"r4", "ms"}]
+RSplit == [f \in RFile |-> Len(RData[f])]
+\* directories: D1 = {a: two chunks X Y, b: the one-chunk file T}, D2 = {a: the one-chunk file Z, b: T}; the only chunk of a
+\* one-chunk member file is a chunk of the pyramid and a data chunk; the manifest node of b ("mb") is shared
+DFile == {"D1", "D2"}
+DData == [f \in DFile |-> CASE f = "D1" -> <<"X", "Y", "T">> [] f = "D2" -> <<"Z", "T">>]
+DOther == [f \in DFile |-> CASE f = "D1" -> {"M1", "mb", "r1", "T"} [] f = "D2" -> {"M2", "mb", "Z", "T"}]
+DSplit == [f \in DFile |-> CASE f = "D1" -> 2 [] f = "D2" -> 1]
 ==============================================================================
